@@ -183,6 +183,11 @@ impl TestRunnerAdapter {
     fn update_state(&mut self, new: MachineRunningState) -> MosResult<()> {
         let mut state = self.state.lock().unwrap();
         let old = *state;
+        if old == MachineRunningState::Launching {
+            // The machine has not been started yet (that happens once the debugger is done configuring),
+            // so there is nothing to pause or resume
+            return Ok(());
+        }
         *state = new;
         self.event_sender
             .send(MachineEvent::RunningStateChanged { old, new })?;
